@@ -33,7 +33,7 @@ func (t *TextTemplater) Apply(payload []byte, metadata map[string]string, variab
 	strBuilder.Reset()
 
 	for k, v := range metadata {
-		tmpl, err = t.getTemplate(v, scenarioName, stepName, k)
+		tmpl, err = t.getTemplate(v, scenarioName, stepName, "metadata:"+k)
 		if err != nil {
 			return nil, fmt.Errorf("%s, template.Execute Header %s, %w", op, k, err)
 		}
